@@ -11,6 +11,7 @@ namespace Verif.Spec.Containers
 
 inductive Err where
   | index                      -- invalid index / invalid slice bounds
+  | mutation                   -- the container was mutated while an iteration over it is active
   deriving DecidableEq, Repr
 
 /-! ### arrays -/
@@ -102,6 +103,45 @@ def dVisitCount (d : Dict κ ν) (j : Nat) : Nat := min (max j 1) d.length
 def DWF (d : Dict κ ν) : Prop := (dKeys d).Nodup
 
 end Dict
+
+/-! ### iteration and the mutation guard
+
+A container that is being iterated (`for … in c`, `c.map`, `c.filter`, `c.forEachKey`) must not be
+mutated until that iteration has ended; an attempt fails with `Err.mutation`, whatever the mutation's
+arguments are.  Iterations over the same container nest; the guard of an outer iteration is still in
+force after an inner one has ended.
+
+Programs over one container, generic in its state `σ` and its mutations `μ`: -/
+section Iter
+variable {σ μ : Type}
+
+inductive Prog (μ : Type) where
+  | skip
+  | mutate (m : μ)                         -- one mutation of the container
+  | seq (p q : Prog μ)
+  | iter (j : Nat) (body : Prog μ)         -- iterate over the container; `body` runs at step `j` (other steps do nothing)
+  deriving Repr
+
+/-- Run a program on the container, `active` iterations over it being in progress.
+    `apply` is the unguarded mutation (it may fail with an index error), `size` the number of
+    iteration steps (elements / keys). -/
+def runProg (apply : σ → μ → Except Err σ) (size : σ → Nat) (active : Nat) (c : σ) : Prog μ → Except Err σ
+  | .skip => .ok c
+  | .mutate m => if active = 0 then apply c m else .error .mutation
+  | .seq p q =>
+    match runProg apply size active c p with
+    | .ok c' => runProg apply size active c' q
+    | .error e => .error e
+  | .iter j body => if j < size c then runProg apply size (active + 1) c body else .ok c
+
+/-- the program attempts at least one mutation when run on a container of `n` steps whose size does not change -/
+def Prog.attempts (n : Nat) : Prog μ → Bool
+  | .skip => false
+  | .mutate _ => true
+  | .seq p q => p.attempts n || q.attempts n
+  | .iter j body => decide (j < n) && body.attempts n
+
+end Iter
 
 /-! ### transactions over any step function -/
 section Machine
